@@ -209,7 +209,10 @@ func runC05Bytes(out *vlib.Out, ln net.Listener, logbuf *c05SyncBuf, p *c05BPlan
 		}
 	}
 	closeAll()
-	u, d := settle(curU, curD)
+	var u, d int64
+	if good { // after a failure the counters are known to be off: no second wait
+		u, d = settle(curU, curD)
+	}
 	if good && (u != curU || d != curD) {
 		fail("process-counter-differs-from-delivered", fmt.Sprintf("after the sessions ended: Stat() counts %d up / %d down, delivered since the last boundary %d / %d", u, d, curU, curD))
 		good = false
